@@ -88,8 +88,11 @@ class AutoSerialize:
                 if isinstance(original_shape, (list, tuple)):
                     original_shape = tuple(int(cast(Any, x)) for x in original_shape)
                 return np.empty(cast(Any, original_shape), dtype=arr.dtype)
+            elif arr.ndim == 0:
+                # A genuine 0-dimensional array holds exactly one value: read it back
+                return np.asarray(arr[()], dtype=arr.dtype).reshape(())
             else:
-                # For empty or 0-dimensional arrays, return an empty numpy array with the same shape
+                # For empty arrays, return an empty numpy array with the same shape
                 return np.empty(arr.shape, dtype=arr.dtype)
         else:
             return cast(np.ndarray, arr[:])
